@@ -545,6 +545,41 @@ static std::string run_cmd(const std::vector<std::string>& a) {
         std::ostringstream o; o << "equals " << (upa::equals(U(d), U(s), xf) ? 1 : 0) << " eq=" << ((U(d) == U(s)) ? 1 : 0); return o.str(); }
     // ---- params linked to a url
     if (c == "sp") { need(1); const int s = slot_of(a[1]); if (s < 0) return "ERR"; { upa::url& u_ = U(s); ARM(g_sp[s] = &u_.search_params()); } return "sp " + state(s); }
+    // ---- API surface beyond the first command set (twin: coq/theories/Spec/Proto2.v)
+    if (c == "usp_pairs") {   // container-of-pairs constructor, all tokens in the encoding of the first
+        need(1); const int k = slot_of(a[1]); if (k < 0 || (a.size() % 2) != 0) return "ERR";
+        std::vector<Tok> ts; for (std::size_t i = 2; i < a.size(); ++i) { Tok t; if (!parse_tok(a[i], t)) return "ERR"; ts.push_back(t); }
+        const char enc = ts.empty() ? 'b' : ts[0].enc;
+        for (const auto& t : ts) if (t.enc != enc) return "ERR";
+        if (enc == 'h') { std::vector<std::pair<std::u16string, std::u16string>> v; for (std::size_t i = 0; i + 1 < ts.size(); i += 2) v.emplace_back(ts[i].s16, ts[i + 1].s16); ARM(g_usp[k].reset(new upa::url_search_params(v))); }
+        else if (enc == 'w') { std::list<std::pair<std::u32string, std::u32string>> v; for (std::size_t i = 0; i + 1 < ts.size(); i += 2) v.emplace_back(ts[i].s32, ts[i + 1].s32); ARM(g_usp[k].reset(new upa::url_search_params(v))); }
+        else if (enc == 'W') { std::vector<std::pair<std::wstring, std::wstring>> v; for (std::size_t i = 0; i + 1 < ts.size(); i += 2) v.emplace_back(ts[i].sw, ts[i + 1].sw); ARM(g_usp[k].reset(new upa::url_search_params(v))); }
+        else if (k % 2) { std::list<std::pair<std::string, std::string>> v; for (std::size_t i = 0; i + 1 < ts.size(); i += 2) v.emplace_back(ts[i].s8, ts[i + 1].s8); ARM(g_usp[k].reset(new upa::url_search_params(v))); }
+        else { std::vector<std::pair<upa::string_view, upa::string_view>> v; for (std::size_t i = 0; i + 1 < ts.size(); i += 2) v.emplace_back(upa::string_view{ ts[i].s8.data(), ts[i].s8.size() }, upa::string_view{ ts[i + 1].s8.data(), ts[i + 1].s8.size() }); ARM(g_usp[k].reset(new upa::url_search_params(v))); }
+        return "usp " + usp_state(*g_usp[k]);
+    }
+    if (c == "usp_swap" || c == "usp_move" || c == "usp_movector") {
+        need(2); const int x = slot_of(a[1]), y = slot_of(a[2]); if (x < 0 || y < 0) return "ERR";
+        if (!g_usp[x]) g_usp[x].reset(new upa::url_search_params());
+        if (!g_usp[y]) g_usp[y].reset(new upa::url_search_params());
+        if (c == "usp_swap") {
+            if (x % 2) { ARM(g_usp[x]->swap(*g_usp[y])); } else { using std::swap; ARM(swap(*g_usp[x], *g_usp[y])); }
+            return "usp_swap " + usp_state(*g_usp[x]) + " | " + usp_state(*g_usp[y]);
+        }
+        if (x == y) return "ERR";
+        if (c == "usp_move") { ARM(*g_usp[x] = std::move(*g_usp[y])); }
+        else { std::unique_ptr<upa::url_search_params> n; ARM(n.reset(new upa::url_search_params(std::move(*g_usp[y])))); g_usp[x] = std::move(n); }
+        g_usp[y].reset(new upa::url_search_params());      // the moved-from object is not looked at
+        return "usp " + usp_state(*g_usp[x]);
+    }
+    if (c == "sp_take") {   // std::move(url).search_params()
+        need(2); const int s = slot_of(a[1]), k = slot_of(a[2]); if (s < 0 || k < 0) return "ERR";
+        if (!U(s).is_valid()) return "sp valid=0 skipped";
+        { upa::url& u_ = U(s); std::unique_ptr<upa::url_search_params> n; ARM(n.reset(new upa::url_search_params(std::move(u_).search_params()))); g_usp[k] = std::move(n); }
+        g_url[s].reset(); g_sp[s] = nullptr;                // the expiring object is destroyed
+        return "usp " + usp_state(*g_usp[k]) + " detached=" + (g_usp[k]->url_ptr_ == nullptr ? "1" : "0");
+    }
+    if (c == "swapf") { need(2); const int d = slot_of(a[1]), s = slot_of(a[2]); if (d < 0 || s < 0 || d == s) return "ERR"; { upa::url& dst_ = U(d); upa::url& src_ = U(s); using std::swap; ARM(swap(dst_, src_)); } refresh_sp(d); refresh_sp(s); return "swap " + state(d) + " | " + state(s); }
     if (c.compare(0, 3, "sp_") == 0 || c.compare(0, 4, "usp_") == 0) {
         const bool linked = c[0] == 's';
         const std::string op = c.substr(linked ? 3 : 4);
